@@ -15,9 +15,26 @@ snap lines are previousTransitions() and, per state, the index lastTransitionTo(
              (active after, not before) has L = 0, and no other index occurs.
   replay     `replay` returning 1 leaves P equal to the replayed list; returning 0 leaves the configuration
              untouched.  If, in addition, the replica's configuration before the replay equals the
-             authority's before its step, the step had a single round and involved no schedule request and
-             no select / utility / random resolution, the replica ends in the authority's active
-             configuration with the authority's resumable marks.
+             authority's before its step and the step involved no schedule request and no select / utility /
+             random resolution, the replica ends in the authority's active configuration with the authority's
+             resumable marks — for steps of ANY number of rounds (approved, vetoed, dropped): the substitution
+             loop does not commit between rounds, so the batch replay makes the same applyRequest() calls
+             (Lean: Props.C09.replay_reproduces_multi_round_step_partial); tags `replay-same`,
+             `replay-resumable` (statistic c09_replay_multiround_checked counts the steps with >= 2 guard rounds).
+  replay-multiround
+             the one class where replay is known NOT to reproduce the ACTIVE configuration (known finding
+             KF-C09-multiround-replay, Lean: multi_round_replay_witness): a `schedule` request entered the step
+             and is not in P, i.e. it was applied in a round that is not recorded (vetoed by a guard, or dropped
+             because it left the request marks unchanged) and registry.restore() does not undo compoResumable;
+             a later approved `resume` then lands elsewhere on the authority than on the replica.  Decided from
+             the transcript of the authority's step: H(in) > H(P), where H(in) counts the `schedule` requests
+             in the queue before the step (Q= of the previous snap), the immediate request itself (`imm H`) and
+             those issued before the commit pass (before the first enter/exit/reenter callback) by any callback
+             (`QH:` actions) or logged (`log T _ H _`; this also sees plan-issued ones), and H(P) those in P.
+             Only such steps (same pre-configuration, no select / utility / random resolution on either side,
+             replay answered true) with a different active configuration get the tag; resumable marks are not
+             judged in this class (the property does not claim them).  Single-round and schedule-free
+             multi-round failures keep `replay-same` / `replay-resumable`, so the known finding cannot hide them.
 """
 import oracles as O
 
@@ -190,7 +207,17 @@ def judge(hdr, ops, tree, config, rejections, stats):
                         plain = False
             if op.name == 'imm' and op.args and op.args[0] == 'H':
                 plain = False
-            step[op.inst] = dict(pre=before, post=sn, rounds=len(rounds), plain=plain and known and all_headed, P=P)
+            # `schedule` requests that entered the step versus those recorded in P (see `replay-multiround` above)
+            first_life = next((i for i, e in enumerate(op.events) if e[0] == 'cb' and e[2] in LIFE), len(op.events))
+            early = op.events[:first_life]
+            h_queued = sum(1 for t in O.parse_list(before.get('Q', '[]')) if t[1] == 'H') if before is not None else 0
+            h_cb = (h_queued + (1 if op.name == 'imm' and op.args and op.args[0] == 'H' else 0)
+                    + sum(1 for e in early if e[0] == 'cb' for a in acts_of(e) if a.startswith('QH:')))
+            h_log = h_queued + sum(1 for e in early if e[0] == 'log' and len(e) >= 5 and e[1] == 'T' and e[3] == 'H')
+            h_rec = sum(1 for t in P if t[1] == 'H')
+            noresolve = not any(e[0] == 'rng' or (e[0] == 'cb' and e[2] in ('select', 'rank', 'utility')) for e in op.events)
+            step[op.inst] = dict(pre=before, post=sn, rounds=len(rounds), plain=plain and known and all_headed, P=P,
+                                 noresolve=noresolve and known and all_headed, sched_leak=max(h_cb, h_log) > h_rec)
         elif op.name in QUIET_OPS and before is not None and 'P' in before:
             if sn['P'] != before['P'] or sn['L'] != before['L']:
                 reject('history-quiet', '`%s` processes nothing, yet previousTransitions / lastTransitionTo changed: %s %s -> %s %s'
@@ -213,10 +240,18 @@ def judge(hdr, ops, tree, config, rejections, stats):
                     reject('replay-false', 'replayTransitions returned false but the configuration changed', idx)
             st = step.get(src)
             resolved = any(e[0] == 'rng' or (e[0] == 'cb' and e[2] in ('select', 'rank', 'utility')) for e in op.events)
-            if (st and st['plain'] and st['rounds'] == 1 and st['P'] == ts and st['pre'] is not None and before is not None
-                    and not resolved and not any(t[1] == 'H' for t in ts)
-                    and all(st['pre'].get(k) == before.get(k) for k in ('A', 'R', 'S'))):
+            same_pre = bool(st and st['P'] == ts and st['pre'] is not None and before is not None and not resolved
+                            and all(st['pre'].get(k) == before.get(k) for k in ('A', 'R', 'S')))
+            if same_pre and st['noresolve'] and st['sched_leak']:
+                # a schedule request was applied in a round that is not recorded: the one known class
+                stats.inc('c09_replay_leak_checked')
+                if op.ret == '1' and (sn['A'] != st['post']['A'] or sn['S'] != st['post']['S']):
+                    reject('replay-multiround', 'replica in the authority\'s configuration, the authority\'s step applied a schedule request in a round that is not recorded (vetoed / unchanged): after replaying %s it is active in %s/%s, the authority in %s/%s'
+                           % (ts, sn['A'], sn['S'], st['post']['A'], st['post']['S']), idx)
+            elif same_pre and st['plain'] and st['rounds'] >= 1 and not any(t[1] == 'H' for t in ts):
                 stats.inc('c09_replay_equal_checked')
+                if st['rounds'] > 1:
+                    stats.inc('c09_replay_multiround_checked')
                 if op.ret != '1':
                     reject('replay-same', 'replica in the authority\'s configuration: replayTransitions(%s) returned false' % ts, idx)
                 elif sn['A'] != st['post']['A'] or sn['S'] != st['post']['S']:
